@@ -145,7 +145,7 @@ func b58WithChecksum(p []byte) string {
 func runC05(c *Ctx) {
 	r := c.Rng
 	secN := secN.Bytes()
-	for k := 0; k < c.Pick(3, 40); k++ {
+	for k := 0; k < c.Pick(3, 8); k++ {
 		// base keys: master, hardened child, public child
 		m, err := hdkeychain.NewMaster(randBytes(r, 32), nets[k%len(nets)])
 		if err != nil {
